@@ -3,7 +3,7 @@
    Statements only. *)
 From Coq Require Import ZArith List Bool.
 From CP Require Import Core.Bytes Core.Result Prim.Mpint Spec.PL Spec.SshSpec Ssh.Record Lemmas.MpintLemmas Lemmas.SshLemmas.
-From CP Require Import Spec.Registry Lemmas.RegistrySsh Spec.SshMsgSpec Lemmas.SshMsgLemmas.
+From CP Require Import Spec.Registry Lemmas.RegistrySsh Spec.SshMsgSpec Lemmas.SshMsgLemmas Lemmas.SshMsgInverse.
 From CP Require Text.Field Spec.FieldSpec Text.Cookie Lemmas.SoftwareLemmas.
 From CP Require Import Ssh.Software.
 From CPGen Require Import Tables.
@@ -97,3 +97,16 @@ Proof. exact SoftwareLemmas.sw_compose_parse. Qed.
 Theorem C07_software_version_separator_run : forall vendor sep r, FieldSpec.no_sep sep vendor = true ->
   sw_parse vendor sep (vendor ++ sep :: sep :: r) = Err InvalidType.
 Proof. exact SoftwareLemmas.sw_parse_separator_run. Qed.
+
+(* the converse, for the RFC 4251 types with a single spelling (byte, uint32, string): whatever the layout decoder accepts
+   is exactly the encoding of the fields it returned followed by what it left, the fields have the kinds asked for and are
+   encodable; boolean and mpint are excluded because the RFC gives them several spellings (Lemmas/SshMsgInverse.v shows one each) *)
+Theorem C07_rigid_fields_inverse : forall ks b fs r, forallb rigid ks = true -> dec_fields ks b = Some (fs, r) ->
+  b = enc_fields fs ++ r /\ map kind_of fs = ks /\ Forall field_ok fs.
+Proof. exact dec_fields_inv. Qed.
+(* hence DISCONNECT and UNIMPLEMENTED, and in either key-exchange context every message without an mpint (NEWKEYS,
+   KEX_DH_GEX_REQUEST), have one encoding only: an accepted buffer is the encoding of the decoded message *)
+Theorem C07_init_messages_one_encoding : forall b fs r, dec_msg kinds_init b = Some (fs, r) -> b = enc_fields fs ++ r.
+Proof. exact ssh_init_messages_canonical. Qed.
+Theorem C07_rigid_messages_one_encoding : forall kinds b fs r, dec_msg (rigid_only kinds) b = Some (fs, r) -> b = enc_fields fs ++ r.
+Proof. exact ssh_rigid_messages_canonical. Qed.
